@@ -117,9 +117,9 @@ def check(an, rep, tier):
     F.check_selectors(prog, rep)
     F.check_rank_value(an, rep, 'svd.matrix_svd')
     F.check_rank_value(an, rep, 'svd.matrix_skeleton')
-    if tier == 'thorough':
-        from .. import rules_tables
-        rules_tables.check_interleave(prog, rep)
+    # (cheap: also in the quick tier)
+    from .. import rules_tables
+    rules_tables.check_interleave(prog, rep)
     rep.floor('O-sweep', 2, 'TT-SVD typestates')
     rep.floor('O-summary', 5, 'factor summaries')
     rep.floor('O-gram', 2, 'selectors')
